@@ -222,6 +222,52 @@ def check_conv(c):
     return res
 
 
+def check_mixed(c):
+    """Mode sizes that are different powers of two (each core is split on its own), and a non-power-of-two size at every position."""
+    res = Res()
+    seed = c.get('seed', 0)
+    shape = c['shape']
+    d = len(shape)
+    res.ev()
+    if c.get('bad') is not None:
+        Y = space.tt(shape, c['ranks'], 'gen', seed, tag=18)
+        try:
+            with warnings.catch_warnings():
+                warnings.simplefilter('ignore')
+                teneva.tt_to_qtt(Y)
+            got = None
+        except ValueError:
+            got = 'ValueError'
+        except Exception as ex:
+            got = type(ex).__name__
+        res.check(got == 'ValueError', 'reject.position', c, lambda: 'shape %s (mode %d is not a power of two) gave %r' % (shape, c['bad'], got))
+        res.nt((tuple(shape), 'bad'))
+        return res
+    Y = space.tt(shape, c['ranks'], c['kind'], seed, tag=18)
+    D = ref.dense(Y)
+    qs = [int(np.log2(n)) for n in shape]
+    with warnings.catch_warnings():
+        warnings.simplefilter('ignore')
+        Z = teneva.tt_to_qtt(Y, 1e-13, 10 ** 6)
+    why = ref.wellformed(Z, [2] * sum(qs))
+    if res.check(why is None and ref.finite(Z), 'mixed.wellformed', c, lambda: 'shape %s: %s (cores %s)' % (shape, why, [G.shape for G in Z])):
+        # every entry: little-endian bits of each index, mode by mode
+        E = ref.dense(Z)
+        worst = 0.0
+        for idx in space.grid_array(shape):
+            bits = [b for i, q in zip(idx, qs) for b in ref.bits_le(int(i), q)]
+            worst = max(worst, abs(E[tuple(bits)] - D[tuple(idx)]))
+        res.check(worst <= 1e-10 * max(np.abs(D).max(), 1e-300), 'mixed.entry', c, lambda: 'entries differ by %.3e' % worst)
+        rz = [1] + [G.shape[2] for G in Z]
+        pos, okb = 0, True
+        for k, q in enumerate(qs):
+            pos += q
+            okb = okb and rz[pos] == Y[k].shape[2]
+        res.check(okb, 'mixed.bonds', c, lambda: 'QTT ranks %s do not carry the TT ranks %s at the mode borders' % (rz, [G.shape[2] for G in Y]))
+    res.nt((tuple(shape), tuple(c['ranks']), c['kind']))
+    return res
+
+
 def check_alternate(c):
     """BFS over alternating conversions: a QTT produced by one conversion is the input of the next."""
     res = Res()
@@ -253,7 +299,7 @@ def check_alternate(c):
     return res
 
 
-CHECKERS = {'maps': check_maps, 'conv': check_conv, 'alternate': check_alternate}
+CHECKERS = {'mixed': check_mixed, 'maps': check_maps, 'conv': check_conv, 'alternate': check_alternate}
 
 
 def strata(tier, seed):
@@ -280,6 +326,24 @@ def strata(tier, seed):
         for pos in ([[0] * d, [n - 1] * d, [5] * d, [n // 2 + 1] + [3] * (d - 1)]):
             cs.append(dict(shape=[n] * d, ranks=[1] + [2] * (d - 1) + [1], kind='delta', pos=pos, caps=[1, 100], seed=seed))
     yield Stratum('tt <-> qtt conversion', cs, 'conv', seq=(tier == 'quick'), size=len(cs), chunk=8, bounds={'d': [1, 3 if tier == 'quick' else 4], 'q': [1, 3 if tier == 'quick' else 4], 'd*q': 6 if tier == 'quick' else 12})
+    mx = []
+    pw = (2, 4, 8) if tier == 'quick' else (2, 4, 8, 16)
+    for d in (2, 3):
+        for sh in itertools.product(pw, repeat=d):
+            if len(set(sh)) == 1 or np.prod(sh) > 256:
+                continue
+            for rk in space.rank_profiles(d, [1, 2] if tier == 'quick' else [1, 2, 3]):
+                for kind in ('gen', 'intA'):
+                    mx.append(dict(shape=list(sh), ranks=rk, kind=kind, seed=seed))
+    for d in (1, 2, 3, 4):
+        for pos in range(d):
+            for bad in (3, 5, 6, 12):
+                for other in (2, 4):
+                    sh = [other] * d
+                    sh[pos] = bad
+                    mx.append(dict(shape=sh, ranks=[1] + [2] * (d - 1) + [1], bad=pos, seed=seed))
+    yield Stratum('different powers of two per mode; a bad mode size at every position', mx, 'mixed', seq=(tier == 'quick'), size=len(mx), chunk=8,
+                  bounds={'mode sizes': list(pw), 'd': [1, 4]})
     al = [dict(shape=[2 ** q] * d, ranks=rk, kind='gen', depth=4 if tier == 'quick' else 6, opts=[(1e-12, 100), (1e-8, 1e12)], seed=seed)
           for d in (1, 2, 3, 4) for q in (1, 2, 3, 4) if d * q <= (6 if tier == 'quick' else 9) for rk in space.rank_profiles(d, [1, 3] if tier == 'quick' else [1, 2, 3])]
     yield Stratum('alternating conversions', al, 'alternate', seq=(tier == 'quick'), size=len(al), chunk=4, bounds={'depth': 4 if tier == 'quick' else 6})
